@@ -12,6 +12,7 @@ fn main() {
     }
 
     println!("cargo:rerun-if-env-changed=CFG_RELEASE_CHANNEL");
+    println!("cargo:rustc-check-cfg=cfg(rust_lang_rustfmt_verif)");
 
     let out_dir = PathBuf::from(env::var_os("OUT_DIR").unwrap());
 
